@@ -15,6 +15,9 @@ enum Op {
     Truncate(u8),
     /// n times set(0, <key 0 element>): a long run of updates in one go
     BurstSet0(u8),
+    /// one `append` of n items that all have the given key (payloads beyond
+    /// one 64-item imbl chunk)
+    AppendRun(u8, u8),
 }
 
 #[derive(Clone, Copy, Debug, PartialEq, Eq, Hash)]
@@ -225,6 +228,12 @@ fn op_effect(op: Op, nkeys: u8, v: &mut Vec<Kid>, next_id: &mut u16) {
                 v.truncate(n as usize)
             }
         }
+        Op::AppendRun(n, k) => {
+            for _ in 0..n {
+                let e = fresh(next_id, k);
+                v.push(e);
+            }
+        }
         Op::BurstSet0(n) => {
             for _ in 0..n {
                 let e = fresh(next_id, 0);
@@ -296,6 +305,14 @@ fn ops_for(len: u8, cfg: &Cfg, out: &mut Vec<Tok>) {
             }
             if room >= 3 {
                 out.push(Tok::Op(Op::Append(3, if nk > 1 { 1 + nk } else { 0 })));
+            }
+            // payloads of more than 64 items (one that passes a filter entirely,
+            // one that does not) when the configuration leaves room for them
+            if cfg.max_len as usize >= len as usize + 70 {
+                out.push(Tok::Op(Op::AppendRun(70, nk - 1)));
+                if nk > 1 {
+                    out.push(Tok::Op(Op::AppendRun(66, 0)));
+                }
             }
             out.push(Tok::Op(Op::PopFront));
             out.push(Tok::Op(Op::PopBack));
